@@ -22,7 +22,7 @@ PROP = "C24"
 META = {
     "level": "exploration",
     "technique": "reference token decoder vs. handler-ran flag over harvested, re-masked, cross-session, single-byte-mutated and arbitrary cookie/token pairs through the real server",
-    "level_text": "Cookie/token pairs (tokens issued by the running application for both cookie versions, reference re-maskings, other sessions' tokens, every kind of single-byte mutation of token and cookie, arbitrary strings, empty secrets) are submitted as form field, query argument, X-XSRFToken or X-CSRFToken with POST/PUT/DELETE/PATCH through HTTPServer; the handler-ran flag and the status are compared with an independent decoder of the hex and 2|mask|masked|ts formats.",
+    "level_text": "Cookie/token pairs (tokens issued by the running application for both cookie versions, reference re-maskings, other sessions' tokens, every kind of single-byte mutation of token and cookie, arbitrary strings, empty secrets) are submitted as form field, query argument, X-XSRFToken or X-CSRFToken with POST/PUT/DELETE/PATCH and with methods the handler adds to SUPPORTED_METHODS (WebDAV-style, extension and GET/HEAD/OPTIONS look-alike names) through HTTPServer; the handler-ran flag and the status are compared with an independent decoder of the hex and 2|mask|masked|ts formats.",
     "level_note": "Trusts the 25-line reference decoder. Not judged (executed, safety only): tokens or cookies that are neither well-formed hex nor '2|'-prefixed (legacy raw-token fallback), mask lengths other than 4 bytes, non-decimal timestamps, characters outside VCHAR, several token sources in one request, non-UTF-8 form fields (400 or 403 accepted).",
     "design_ref": "DESIGN.md §4 C24",
     "engine": "wire",
@@ -35,9 +35,19 @@ FLOORS = {"quick": 6000, "thorough": 150000}
 ASSUMPTIONS = ["reference decoder of the two XSRF token formats is correct",
                "one token source per request", "cookie values contain no ';', quotes or whitespace"]
 REQUIRED_COUNTERS = ["oracle_evals", "expect_accept", "expect_reject", "issued_token_evals", "ran_flag_set",
-                     "safety_evals", "unspecified_pairs"]
+                     "safety_evals", "unspecified_pairs", "extension_method/expect_accept",
+                     "extension_method/expect_reject", "extension_method/issued_token_evals"]
 
 METHODS = ["POST", "PUT", "DELETE", "PATCH"]
+# "a non-GET/HEAD/OPTIONS request": whatever else a handler declares in SUPPORTED_METHODS is covered as well --
+# WebDAV / cache / extension verbs, a made-up one, names that merely resemble the three exempt or the four usual
+# ones, and one with a hyphen.
+EXT_METHODS = ["PURGE", "PROPFIND", "PROPPATCH", "MKCOL", "COPY", "MOVE", "LOCK", "UNLOCK", "REPORT", "SEARCH", "QUERY",
+               "LINK", "FROBNICATE", "GETS", "XGET", "HEADS", "OPTION", "OPTIONSX", "POSTS", "DELETED", "M-SEARCH"]
+
+
+def pick_method(rng):
+    return rng.choice(METHODS) if rng.random() < 0.6 else rng.choice(EXT_METHODS)
 CHANNELS = ["form", "query", "X-XSRFToken", "X-CSRFToken", "x-xsrftoken"]
 EDIT_ALPHA = "09afAF|2g-+_ :%"
 HEX = re.compile(r"(?:[0-9a-fA-F]{2})*\Z")
@@ -109,7 +119,10 @@ def make_app(version):
             self.write("ran")
 
         put = delete = patch = post
+        SUPPORTED_METHODS = tornado.web.RequestHandler.SUPPORTED_METHODS + tuple(EXT_METHODS)
 
+    for m in EXT_METHODS:
+        setattr(H, m.lower(), H.post)
     return tornado.web.Application([("/x", H)], xsrf_cookies=True, xsrf_cookie_version=version,
                                    log_function=lambda h: None)
 
@@ -187,7 +200,7 @@ def _rand_pair(rng):
         cookie = "".join(rng.choice("0123456789abcdef|2:gé ;\"") for _ in range(rng.randint(0, 24)))
         token = cookie if rng.random() < 0.5 else "".join(rng.choice("0123456789abcdef|2") for _ in range(rng.randint(0, 24)))
     return {"k": "pair", "appver": rng.choice([1, 2]), "cookie": cookie, "token": token,
-            "chan": rng.choice(CHANNELS), "method": rng.choice(METHODS)}
+            "chan": rng.choice(CHANNELS), "method": pick_method(rng)}
 
 
 def _edit(rng, s):
@@ -209,6 +222,11 @@ def directed_cases():
     yield {"k": "pair", "appver": 2, "cookie": "2|zz|00|1", "token": "2|zz|00|1", "chan": "query", "method": "PUT"}
     yield {"k": "pair", "appver": 2, "cookie": "abcd", "token": "2|01020304|aaccd0d4|1", "chan": "X-CSRFToken", "method": "PATCH"}
     yield {"k": "pair", "appver": 1, "cookie": "abcd", "token": "2|01020304|aaccd0d4|1", "chan": "form", "method": "POST"}
+    for i, m in enumerate(EXT_METHODS):      # every extension method: no token, a foreign token, a matching token
+        yield {"k": "pair", "appver": 1 + i % 2, "cookie": "ab" * 16, "token": "", "chan": "form", "method": m}
+        yield {"k": "pair", "appver": 2 - i % 2, "cookie": "ab" * 16, "token": "cd" * 16, "chan": CHANNELS[i % len(CHANNELS)], "method": m}
+        yield {"k": "pair", "appver": 1 + i % 2, "cookie": "ab" * 16, "token": ref_encode_v2(b"\xab" * 16, b"\x01\x02\x03\x04", 7),
+               "chan": CHANNELS[(i + 1) % len(CHANNELS)], "method": m}
     yield {"k": "session", "appver": 1, "eseed": 1, "edits": 20}
     yield {"k": "session", "appver": 2, "eseed": 2, "edits": 20}
 
@@ -277,8 +295,13 @@ async def submit(ctx, sess, appver, cookie, token, chan, method, origin="generat
         ctx.violation(f"status-{r.status}/" + origin, "server error for a cookie/token pair (must be 403)", wit)
         return r.status, ran
     exp = verdict_override or expect(cookie, token)
+    ext = method not in METHODS
     if origin.startswith("issued"):
         ctx.count("issued_token_evals")
+        if ext:
+            ctx.count("extension_method/issued_token_evals")
+    if ext and exp in ("accept", "reject"):
+        ctx.count("extension_method/expect_" + exp)
     if exp == "accept":
         ctx.count("expect_accept")
         if not (ran and r.status == 200):
@@ -288,6 +311,20 @@ async def submit(ctx, sess, appver, cookie, token, chan, method, origin="generat
         ctx.count("expect_reject")
         if ran:
             why = _why_reject(cookie, token)
+            if ext:
+                # control experiment for the classifier only: is the same pair refused with POST?  Then the check
+                # depends on the method (one root cause, whatever is wrong with the pair); else it is the pair.
+                _rid[0] += 1
+                crid = "r%d" % _rid[0]
+                craw = webrig.build_request("POST", target, [(k, crid if k == "X-Rid" else v) for k, v in headers], body)
+                try:
+                    await s.request(craw, "POST")
+                except webrig.WireError:
+                    pass
+                s.take_uncaught()
+                if crid not in RAN:
+                    why = "not-checked-for-handler-declared-method"
+                RAN.discard(crid)
             ctx.violation(f"handler-reached/{why}", "handler ran although the token does not decode to the cookie's non-empty secret", wit)
         elif r.status != 403:
             ctx.violation(f"reject-status-{r.status}", "rejected XSRF submission answered with a status other than 403", wit)
@@ -344,7 +381,7 @@ async def run_session_case(case, ctx, sess):
     o = 3 - v
 
     def cm():
-        return rng.choice(CHANNELS), rng.choice(METHODS)
+        return rng.choice(CHANNELS), pick_method(rng)
 
     c0, t0 = await harvest(ctx, sess, v)
     if c0 is None:
